@@ -4,7 +4,8 @@ From RU Require Import Base.Prelude Base.Utf8 Model.AsciiSet Gen.Tables Model.Pe
   Model.HostT Model.UrlRecord Model.Parser Model.Mime Model.Base64 Model.DataUrl Model.DataUrlTie Model.KnownC17
   Spec.Infra Spec.MimeSniff Spec.Fetch
   Proofs.C02_Parts Proofs.C18_BodyRef Proofs.C17_Tables Proofs.C17_Total Proofs.C17_Decode Proofs.C17_Main
-  Proofs.C17_Bridge Proofs.C17_Fragment Proofs.C17_Body Proofs.C17_BodyUrl.
+  Proofs.C17_Bridge Proofs.C17_Fragment Proofs.C17_Body Proofs.C17_BodyUrl
+  Proofs.C17_Header Proofs.C17_HeaderUrl Proofs.C17_Mime Proofs.C17_Partial.
 
 (* the byte classes and literals of data-url/src/lib.rs, regenerated from the source on every run, are
    the Standards': the C0-control / query / fragment percent-encode sets (as url/src/parser.rs defines
@@ -166,6 +167,143 @@ Theorem C17_no_comma : forall dbg hp ho hd s rem u, usv_list s ->
   Fetch.process (url_without_fragment u) = None.
 Proof. exact no_comma_is_fetch_failure. Qed.
 Print Assumptions C17_no_comma.
+
+(* ---- the header half ---- *)
+
+(* the Fetch processor, with the steps that only look at mimeType (6: strip ASCII whitespace; 11: the
+   base64-marker condition and 11.4-11.6; 12: the "text/plain" prefix) collected in fetch_header
+   (Proofs/C17_Header.v): fetch_header mimeType = (the string given to "parse a MIME type", the flag) *)
+Theorem C17_fetch_header : forall serialization,
+  Fetch.process serialization =
+  match collect_until_comma (remove_data_colon [100; 97; 116; 97; 58] serialization) with
+  | (_, None) => None
+  | (mimeType, Some encodedBody) =>
+      let body := string_percent_decode encodedBody in
+      match (if snd (fetch_header mimeType) then forgiving_base64_decode body else Some body) with
+      | None => None
+      | Some body' =>
+          Some (match parse_a_mime_type (fst (fetch_header mimeType)) with
+                | Some r => r
+                | None => text_plain_us_ascii
+                end, body')
+      end
+  end.
+Proof. exact fetch_process_alt_eq. Qed.
+Print Assumptions C17_fetch_header.
+
+(* parse_header in closed form: header_of h (Proofs/C17_Header.v) = (the String handed to Mime::from_str,
+   the base64 flag): trim, the backwards scan for ';' spaces* "base64", the "text/plain" prefix, the
+   percent-encoding loop *)
+Theorem C17_parse_header : forall h,
+  parse_header h = bind (Mime.from_str (fst (header_of h)))
+                        (fun parsed => Ok (match parsed with Some m => m | None => fallback_mime end, snd (header_of h))).
+Proof. exact parse_header_eq. Qed.
+Print Assumptions C17_parse_header.
+
+(* header text and base64 flag: opaque path, no '?' in the header: what parse_header hands to the MIME
+   parser, and its flag, are what steps 4-6, 11 and 12 of the processor make of the text between
+   "data:" and the first comma of the URL serialization *)
+Theorem C17_header_text : forall dbg hp ho hd s rem u h B, usv_list s ->
+  parse_scheme CUrlParser (input_new_trim_c0 s) = Some (s_data, rem) -> inp_split_prefix_char 47 rem = None ->
+  parse_url dbg hp ho hd None None s = POk u ->
+  find_comma_before_fragment (utf8_encode rem) = Ok (Some (h, B)) ->
+  ~ In 63 h ->
+  exists mimeType encodedBody,
+    collect_until_comma (skipn 5 (url_without_fragment u)) = (mimeType, Some encodedBody)
+    /\ header_of h = fetch_header mimeType.
+Proof. exact header_is_fetch_header. Qed.
+Check C17_header_text : forall dbg hp ho hd s rem u h B, usv_list s ->
+  parse_scheme CUrlParser (input_new_trim_c0 s) = Some (s_data, rem) -> inp_split_prefix_char 47 rem = None ->
+  parse_url dbg hp ho hd None None s = POk u ->
+  find_comma_before_fragment (utf8_encode rem) = Ok (Some (h, B)) ->
+  ~ In 63 h ->
+  exists mimeType encodedBody,
+    collect_until_comma (skipn 5 (url_without_fragment u)) = (mimeType, Some encodedBody)
+    /\ header_of h = fetch_header mimeType.
+Print Assumptions C17_header_text.
+
+(* the base64 flag alone, in the Standard's words: mimeType (stripped) ends with ';', U+0020s, "base64" *)
+Theorem C17_base64_flag : forall dbg hp ho hd s rem u h B, usv_list s ->
+  parse_scheme CUrlParser (input_new_trim_c0 s) = Some (s_data, rem) -> inp_split_prefix_char 47 rem = None ->
+  parse_url dbg hp ho hd None None s = POk u ->
+  find_comma_before_fragment (utf8_encode rem) = Ok (Some (h, B)) ->
+  ~ In 63 h ->
+  exists mimeType encodedBody,
+    collect_until_comma (skipn 5 (url_without_fragment u)) = (mimeType, Some encodedBody)
+    /\ forall m b, parse_header h = Ok (m, b) ->
+       b = match ends_with_base64_marker (strip_leading_and_trailing_ascii_whitespace mimeType) with
+           | Some _ => true
+           | None => false
+           end.
+Proof. exact base64_flag_is_fetch. Qed.
+Print Assumptions C17_base64_flag.
+
+(* MIME parser equivalence: on every string of HTTP quoted-string token code points (TAB, 0x20-0x7E,
+   0x80-0xFF; F-C19-2 needs a code point outside) Mime::from_str is the MIME Sniffing Standard's
+   "parse a MIME type" *)
+Theorem C17_mime_equiv : forall t, Forall (fun c => http_quoted_string_token_cp c = true) t ->
+  Mime.parse t = Ok (option_map (fun r => mk_mime (mt_type r) (mt_subtype r) (mt_parameters r)) (parse_a_mime_type t)).
+Proof. exact mime_parse_equiv. Qed.
+Check C17_mime_equiv : forall t, Forall (fun c => http_quoted_string_token_cp c = true) t ->
+  Mime.parse t = Ok (option_map (fun r => mk_mime (mt_type r) (mt_subtype r) (mt_parameters r)) (parse_a_mime_type t)).
+Print Assumptions C17_mime_equiv.
+
+(* hence the statement C17_Main left open (printable ASCII) *)
+Theorem C17_mime : C17_mime_statement.
+Proof. exact mime_statement_holds. Qed.
+Check C17_mime : forall t, Forall printable t ->
+  Mime.parse t = Ok (option_map (fun r => mk_mime (mt_type r) (mt_subtype r) (mt_parameters r)) (parse_a_mime_type t)).
+Print Assumptions C17_mime.
+
+(* the MIME type clause: the record DataUrl::mime_type returns is the one the processor computes *)
+Theorem C17_mime_type : forall dbg hp ho hd s rem u h B, usv_list s ->
+  parse_scheme CUrlParser (input_new_trim_c0 s) = Some (s_data, rem) -> inp_split_prefix_char 47 rem = None ->
+  parse_url dbg hp ho hd None None s = POk u ->
+  find_comma_before_fragment (utf8_encode rem) = Ok (Some (h, B)) ->
+  ~ In 63 h ->
+  exists mimeType encodedBody,
+    collect_until_comma (skipn 5 (url_without_fragment u)) = (mimeType, Some encodedBody)
+    /\ forall m b, parse_header h = Ok (m, b) ->
+       record_of_mime m = match parse_a_mime_type (fst (fetch_header mimeType)) with
+                          | Some r => r
+                          | None => text_plain_us_ascii
+                          end.
+Proof. exact mime_type_is_fetch. Qed.
+Print Assumptions C17_mime_type.
+
+(* ---- C17 for the class "opaque path, header without '?', body outside K3": MIME type record, body
+   bytes (base64 or not), fragment, and failure (no comma / invalid base64) all agree.
+   STILL MISSING for C17_statement: headers with '?' (outside K2), and the passage from these
+   hypotheses (stated on what parse_scheme leaves after "data:") to ~ Known_C17 s. ---- *)
+Theorem C17_partial : forall dbg hp ho hd s rem u, usv_list s ->
+  parse_scheme CUrlParser (input_new_trim_c0 s) = Some (s_data, rem) -> inp_split_prefix_char 47 rem = None ->
+  parse_url dbg hp ho hd None None s = POk u ->
+  (forall h B, find_comma_before_fragment (utf8_encode rem) = Ok (Some (h, B)) ->
+               ~ In 63 h /\ k17_split_escape B = false) ->
+  fetch_view (process_and_decode s) = fetch_of_url u.
+Proof. exact opaque_noq_is_fetch. Qed.
+Check C17_partial : forall dbg hp ho hd s rem u, usv_list s ->
+  parse_scheme CUrlParser (input_new_trim_c0 s) = Some (s_data, rem) -> inp_split_prefix_char 47 rem = None ->
+  parse_url dbg hp ho hd None None s = POk u ->
+  (forall h B, find_comma_before_fragment (utf8_encode rem) = Ok (Some (h, B)) ->
+               ~ In 63 h /\ k17_split_escape B = false) ->
+  fetch_view (process_and_decode s) = fetch_of_url u.
+Print Assumptions C17_partial.
+
+(* the hypotheses of C17_partial (and of C17_header_text ...) hold for " DATA:Text/HTML;Charset=x;base64,W%20A==#a b" *)
+Example C17_partial_premises :
+  let s := [32;68;65;84;65;58;84;101;120;116;47;72;84;77;76;59;67;104;97;114;115;101;116;61;120;59;98;97;115;101;54;52;44;87;37;50;48;65;61;61;35;97;32;98] in
+  exists rem u, usv_list s
+    /\ parse_scheme CUrlParser (input_new_trim_c0 s) = Some (s_data, rem) /\ inp_split_prefix_char 47 rem = None
+    /\ parse_url true toy_hp toy_hp toy_hd None None s = POk u
+    /\ exists h B, find_comma_before_fragment (utf8_encode rem) = Ok (Some (h, B))
+                   /\ forallb (fun c => negb (c =? 63)) h = true /\ k17_split_escape B = false
+                   /\ snd (header_of h) = true.
+Proof.
+  cbv zeta. eexists. eexists. split; [apply usv_list_b; vm_compute; reflexivity|].
+  split; [vm_compute; reflexivity|]. split; [vm_compute; reflexivity|]. split; [vm_compute; reflexivity|].
+  eexists. eexists. split; [vm_compute; reflexivity|]. vm_compute. repeat split.
+Qed.
 
 (* inside Known_C17 the statement fails: one witness per finding (toy host functions; none of the
    witnesses has an authority) *)
